@@ -184,6 +184,31 @@ func (c *Ctx) methodByRole(n *types.Named, name string) *ssa.Function {
 	if count == 1 {
 		return hit
 	}
+	if count == 0 {
+		// the helper became a plain function of the package (taking the round / the message instead of the receiver):
+		// looked for among the functions the handler's methods call
+		seen := map[*ssa.Function]bool{}
+		for i := 0; i < n.NumMethods(); i++ {
+			m := c.Prog.FuncValue(n.Method(i))
+			if m == nil {
+				continue
+			}
+			allInstrs(m, func(in ssa.Instruction) {
+				g := staticCallee(in)
+				if g == nil || seen[g] || g.Signature.Recv() != nil || g.Pkg == nil || g.Pkg.Pkg != n.Obj().Pkg() || len(g.Blocks) == 0 {
+					return
+				}
+				seen[g] = true
+				if role(c, g) {
+					hit = g
+					count++
+				}
+			})
+		}
+		if count == 1 {
+			return hit
+		}
+	}
 	return nil
 }
 
